@@ -85,6 +85,34 @@ def sample(seq, pick=0):
     return ''.join(out)
 
 
+def rsample(seq, rng, depth=0):
+    """A RANDOM string matched by the pattern sequence: random alternatives, optional parts taken or not, repeats 0..2
+    times (deterministic given rng)."""
+    out = []
+    for op, av in seq:
+        op = str(op)
+        if op == 'LITERAL':
+            out.append(chr(av))
+        elif op == 'NOT_LITERAL':
+            out.append('a' if av != ord('a') else 'b')
+        elif op == 'ANY':
+            out.append('a')
+        elif op == 'IN':
+            out.append(sample_set(av))
+        elif op == 'BRANCH':
+            alts = av[1]
+            out.append(rsample(alts[rng.randrange(len(alts))], rng, depth + 1))
+        elif op == 'SUBPATTERN':
+            out.append(rsample(av[3], rng, depth + 1))
+        elif op in ('MAX_REPEAT', 'MIN_REPEAT'):
+            lo, hi, body = av
+            k = lo + (rng.randrange(0, 2) if hi > lo else 0)
+            out.append(''.join(rsample(body, rng, depth + 1) for _ in range(min(k, 3))))
+        elif op in ('ASSERT', 'ASSERT_NOT', 'AT', 'GROUPREF'):
+            pass
+    return ''.join(out)
+
+
 def pumps_of(pattern):
     """(prefix, pump) pairs for every unbounded repeat of the pattern."""
     p = _parser()
@@ -106,11 +134,19 @@ def pumps_of(pattern):
                         alts = [sample(a) for a in inner[0][1][1]]
                     else:
                         alts = [sample(body)]
+                    # random samples of the body: bodies built from optional sub-groups (`((A\\s+)?(B\\s+)?|...)*`) have
+                    # no non-empty "first alternative"; the attack string alternates matches of different sub-groups
+                    import random as _random
+                    rr = _random.Random(len(pattern) * 7919 + len(out))
+                    for _ in range(40):
+                        x = rsample(body, rr)
+                        if x and x not in alts and len(alts) < 14:
+                            alts.append(x)
                     alts = [a for a in alts if a]
                     for a in alts:
                         out.append((pre, a))
-                    for a in alts[:3]:
-                        for b in alts[:3]:
+                    for a in alts[:5]:
+                        for b in alts[:5]:
                             if a != b:
                                 out.append((pre, a + b))
                 walk(body, pre)
